@@ -157,7 +157,7 @@ var ruleBCE = &Rule{
 			}
 		}
 		out.Counts["index_and_slice_operations_reachable"] = nidx
-		out.Floors["index_and_slice_operations_reachable"] = 5
+		out.Floors["index_and_slice_operations_reachable"] = 2
 		fs, err := p.compilerBCE("./path/types")
 		if err != nil {
 			out.undecided("compiler prove pass", "-", "", err.Error())
@@ -278,7 +278,7 @@ func init() {
 	register(ruleBCE, ruleUnmarshalErr, rulePanicUnmarshal)
 	addProp(&PropSpec{
 		ID:    "C18",
-		Rules: []string{"R-BCE", "R-PANIC-UNMARSHAL", "R-UNMARSHAL-ERR", "R-LAYOUT", "R-CTXZONE", "R-GLOBALS"},
+		Rules: []string{"R-BCE", "R-PANIC-UNMARSHAL", "R-UNMARSHAL-ERR", "R-LAYOUT", "R-CTXZONE", "R-GLOBALS", "R-WALLCLOCK"},
 		Explanation: "Totality of UnmarshalJSON on hostile input, decided with the Go compiler's own prove pass as the decision procedure for index safety: " +
 			"every bounds check the compiler cannot discharge in a function reachable from the five UnmarshalJSON methods is a violation; explicit panics are enumerated over the call graph; returned errors wrap ErrSQLType. " +
 			"Only the 'hostile input returns an error instead of panicking' clause of C18 is decided.",
